@@ -1695,8 +1695,12 @@ fn drop_stream_ref(inner: &Mutex<Inner>, key: store::Key) {
     // If the stream is not referenced and it is already
     // closed (does not have to go through logic below
     // of canceling the stream), we should notify the task
-    // (connection) so that it can close properly
-    if stream.ref_count == 0 && stream.is_closed() {
+    // (connection) so that it can close properly.
+    //
+    // The same goes for the last reference besides the connection's
+    // own: a `SendRequest` gives up its `Streams` handle before the
+    // reference to its pending stream, so that one may be the last.
+    if (stream.ref_count == 0 && stream.is_closed()) || me.refs == 1 {
         if let Some(task) = actions.task.take() {
             task.wake();
         }
